@@ -431,7 +431,8 @@ def gen_raw(r, seed):
                              + [{"cls": "RandomKaryPartition", "K": k} for k in (6, 8)])
     dmax = 4 if part["cls"] != "DimensionBinaryPartition" else 3
     d = r.randint(1, dmax)
-    dom = [gen.gen_side(r) for _ in range(d)] if r.random() > 0.2 else [[0.0, 1.0] for _ in range(d)]
+    dom = [gen.gen_side(r) for _ in range(d)] if r.random() > 0.3 else [gen.gen_side(r)] * d
+    dom = [list(x) for x in dom]
     nops = r.choice([3, 6, 12, 25, 60])
     ops = []
     for _ in range(nops):
@@ -445,7 +446,8 @@ def gen_raw(r, seed):
         else:
             ops.append(["shallowest", r.random()])
     return {"algo": "RAW", "partition": part, "domain": dom, "ops": ops, "rounds": len(ops),
-            "rng": gen.gen_rng(r, seed, real_prob=0.15), "rewards": {"kind": "zero"}, "max_cells": 3000}
+            "rng": gen.gen_rng(r, seed, real_prob=0.15), "rewards": {"kind": "zero"}, "max_cells": 3000,
+            "aliased_rows": d > 1 and all(x == dom[0] for x in dom) and r.random() < 0.6}
 
 
 class CheckC04(Check):
@@ -888,7 +890,7 @@ def _twin_base(r, seed, algo, **kw):
         sc["params"]["n"] = r.choice([16, 32, 50, 64])
         sc["rounds"] = min(sc["rounds"], sc["params"]["n"])
     sc["rewards"].pop("opt", None)
-    if sc["rewards"]["kind"] in ("obj", "objneg"):
+    if sc["rewards"]["kind"] in ("obj", "objneg", "edge"):
         sc["rewards"]["kind"] = "gauss"     # rewards are a function of the round index only
     return sc
 
@@ -1047,7 +1049,16 @@ class CheckC16(TwinCheck):
         A["rng"]["policy"]["endpoint_tags"] = ["lo", "hi"]
         doo_default = algo == "DOO" and (A["params"].get("delta") is None)
         d = len(A["domain"])
-        if (coord_sensitive or doo_default) and mode == "tol":
+        zoom_tol = False
+        if coord_sensitive and mode == "tol" and r.random() < 0.6:
+            # Zooming under an arbitrary affine map, on midpoint partitions only: there every comparison it makes between
+            # an arm and a cell bound is either between bit-identical numbers (the arm *is* the split point, computed by the
+            # same expression) or has a margin of half a cell width, so rounding cannot flip it while cells are much wider
+            # than an ulp (judged up to depth 40)
+            zoom_tol = True
+            if A["partition"] not in gen.PARTS_MIDPOINT:
+                A["partition"] = dict(r.choice(gen.PARTS_MIDPOINT))
+        elif (coord_sensitive or doo_default) and mode == "tol":
             mode = "shift-dyadic" if doo_default else r.choice(["scale2", "shift-dyadic"])
             if mode == "shift-dyadic" and A["partition"] not in gen.PARTS_MIDPOINT:
                 A["partition"] = dict(r.choice(gen.PARTS_MIDPOINT))
@@ -1070,6 +1081,8 @@ class CheckC16(TwinCheck):
         sc["A"] = A
         sc["mode"] = mode
         sc["coord_sensitive"] = bool(coord_sensitive or doo_default)
+        if zoom_tol:
+            sc["depth_guard"] = 40
         return sc
 
     def distinct_key(self, sc, res):
